@@ -449,8 +449,8 @@ def run_r7(chk, repo):
     import itertools
     R7 = chk.rule('R7', 'update_source removes the IGNORE/ACCEPT filters of $DATA only when the record stops referring to the '
                         'original file (dataset rewritten or path changed)', floor=1)
-    mm = repo.module('pharmpy.model.external.nonmem.model')
-    us = mm.classes['Model'].methods.get('update_source')
+    us = data_update_host(repo)
+    mm = us.module
     if us is None:
         raise AnalysisError('update_source not found')
     parent = {}
